@@ -32,11 +32,16 @@ FocusValid(nodes) ==
 \* containers (by id) whose focus index differs between two snapshots of a structurally unchanged tree
 Moved(pre, post) == {id \in NodeIds(pre) \cap NodeIds(post) : Node(pre, id).leaf = 0 /\ Node(pre, id).nch = Node(post, id).nch
                                                              /\ Node(pre, id).focus # Node(post, id).focus}
-\* scrolls = TRUE: the screen is too short to show everything, so a ListBox also uses its focus to scroll past unselectable items
-\* (documented ListBox behaviour; which item it lands on depends on geometry the node table does not carry): ListBox moves are not judged
+\* A ListBox also uses its focus to SCROLL: when the next selectable item is not in reach it moves the focus onto an unselectable
+\* item (documented ListBox behaviour; whether an item is in reach depends on geometry the node table does not carry).  Such a move
+\* is accepted when it did not pass over a selectable item on its way.
+ListBoxScrolled(pre, post, id) ==
+  LET a == Node(pre, id).focus  b == Node(post, id).focus
+      lo == IF a < b THEN a ELSE b  hi == IF a < b THEN b ELSE a
+  IN Node(post, id).kind = "ListBox" /\ \A i \in (lo + 1)..(hi - 1) : LET c == ChildId(post, id, i) IN c = 0 \/ Node(post, c).sel = 0
 ArrowOnlyToSelectable(pre, post, scrolls) ==
   \A id \in Moved(pre, post) :
-     LET c == ChildId(post, id, Node(post, id).focus) IN c = 0 \/ Node(post, c).sel = 1 \/ (scrolls /\ Node(post, id).kind = "ListBox")
+     LET c == ChildId(post, id, Node(post, id).focus) IN c = 0 \/ Node(post, c).sel = 1 \/ ListBoxScrolled(pre, post, id)
 
 SelectableIffChild(nodes, id) ==
   LET nd == Node(nodes, id)
